@@ -80,6 +80,13 @@ def machine(kind, retry, catch, fname):
                             "ItemProcessor": {"StartAt": "TC", "States": {
                                 "TC": {"Type": "Choice", "Choices": [{"Variable": "$", "NumericEquals": 1, "Next": "TP"}], "Default": "TI"},
                                 "TP": {"Type": "Pass", "End": True}, "TI": dict(t, End=True)}}}, **hs)
+    elif kind == "map-in-mapmc":
+        # the retried state is a Map that sits in an iteration of the *second* MaxConcurrency batch of an outer Map (no Catch: its targets are top-level states)
+        inner = dict({"Type": "Map", "End": True, "ItemsPath": "$", "ItemProcessor": {"StartAt": "TI", "States": {"TI": dict(t, End=True)}}}, **{k: v for k, v in hs.items() if k == "Retry"})
+        states["T"] = {"Type": "Map", "Next": "N", "ItemsPath": "$.nested", "MaxConcurrency": 1,
+                       "ItemProcessor": {"StartAt": "TC", "States": {
+                           "TC": {"Type": "Choice", "Choices": [{"Variable": "$", "NumericEquals": 1, "Next": "TP"}], "Default": "TM"},
+                           "TP": {"Type": "Pass", "End": True}, "TM": inner}}}
     else:
         states["T"] = dict({"Type": "Map", "Next": "N", "ItemsPath": "$.items", "ItemProcessor": {"StartAt": "TI", "States": {"TI": dict(t, End=True)}}}, **hs)
     states["N"] = dict(follow)
@@ -101,6 +108,9 @@ def cases(tier):
             for c in cs[:3]:
                 for o in os_[::2]:
                     out.append((kind, r, c, o))
+    for r in single:
+        for o in os_[::2]:
+            out.append(("map-in-mapmc", r, None, o))
     for kind in ("parallel-nested", "map-nested"):
         for r in single:
             for c in cs[:2]:
@@ -108,7 +118,7 @@ def cases(tier):
                     out.append((kind, r, c, o))
     return out
 
-INPUT = {"in": 1, "items": [7], "pair": [1, 2]}
+INPUT = {"in": 1, "items": [7], "pair": [1, 2], "nested": [1, [7]]}
 
 def workers_for(i, o):
     return {"f%d" % i: {"*": to_outcomes(o)}}
@@ -269,7 +279,7 @@ def run(tier, seed):
         if agree(tt, ft, gt, ref):
             continue
         cls = "policy-mismatch"
-        if kind in ("parallel", "map", "mapmc", "parallel-nested", "map-nested") and "X" in o and not tt:
+        if kind in ("parallel", "map", "mapmc", "map-in-mapmc", "parallel-nested", "map-nested") and "X" in o and not tt:
             # the worker itself reports the reserved name Task.Terminated from inside a branch
             pos = o.index("X")
             cls = "worker-reported-Task.Terminated-in-fanout-never-ends"
